@@ -43,6 +43,14 @@ CLAIMED = {
     "C14": sim("DESIGN.md §4 C14",
         "runtime monitoring: set/sequence oracle over complete cursor traversals (must-return / may-return sets from the observed snapshots, order, page size, cursor presence, forged cursors)",
         "Populations of 0-250 promises and 0-45 schedules with structured ids, all five states, tag sets; queries (prefix/suffix/infix/multi wildcards, every state filter, tag subsets, limits 1..100) are built with the real request helper and followed through real signed cursors to the end while other clients create, complete and the clock crosses deadlines, schedules are deleted. Judged per traversal: must (matched by stored state in every snapshot of the window) subset of returned subset of may (matched at some instant by stored or clock-derived state), no duplicates, strictly newest-first, page <= limit, cursor present iff the page was full, nothing pending past its deadline, tampered cursors refused."),
+    "C16": dict(engine="storediff", category="fault_enumeration", design="DESIGN.md §4 C16, §2.6, §3.2",
+        technique="runtime monitoring: differential oracle - the real SQLite store (through store.Process) against an executable conditional-write model, results and complete table contents through a second connection; SQL-trigger failure injection at every row-changing command position; concurrent reader for isolation",
+        text="Generated sequences of batches (1-8 transactions of 1-6 commands, all 27 command kinds, arguments from small id pools and from the live state so every guard is hit on both sides) run on an evolving database through the real Process/Execute code; after every batch every Result and the full contents of the five tables (read through a second connection) must equal the reference model, which applies the commands in submission order as conditional writes, all or nothing. Fault enumeration: for generated batches every command position that changes a row is made to fail inside the store's own SQL transaction (a RAISE(ABORT) trigger installed through the observer), one position at a time: every submission must complete with the error and the tables must be untouched. A reader on a file database polls in read transactions while large batches commit: everything it sees must be a committed state, in order.",
+        note="Trusted: the reference model (harness/vstore/refstore.go, written from the property text), SQLite's trigger semantics, the observer's SELECTs. Under-specified choices are sets of acceptable answers (which rows an unordered LIMIT returns, which init task of a root SQLite picks, absolute sort ids). LIKE metacharacters/case folding in ids are not generated."),
+    "C17": dict(engine="storediff", category="exploration", design="DESIGN.md §4 C17, §3.3",
+        technique="runtime monitoring: differential execution - the real Postgres backend code on a dialect-translating driver (pgshim) and the SQLite backend, both against the same reference model, same sequences",
+        text="No Postgres server exists in the sandbox, so the real internal/app/subsystems/aio/store/postgres code (statement text with its guards, argument order, scan order, result mapping, transaction handling) runs on pgshim, a database/sql driver that translates the Postgres dialect it sends ($n, ::casts, jsonb @>, DISTINCT ON, SERIAL/JSONB/BYTEA DDL, case-sensitive LIKE) to SQLite and enforces the declared integer widths. The same generated sequences (all 27 kinds, integers over the full client-reachable ranges) run on it and on the SQLite backend; every result and the full table contents of both must equal the reference model, i.e. each other.",
+        note="Limit: behaviour that exists only inside a real Postgres server (planner, isolation levels, jsonb text normalisation, lock waits, SERIAL gaps) is out of reach; the translator (harness/vstore/pgshim.go, self-tested at start) and SQLite's execution of the translated text are trusted. Statements the translator does not understand make the check exit 2, not pass."),
 }
 
 PENDING_REASON = "check for this property is not built yet in this round (machinery under construction; see DESIGN.md §9 build order)"
@@ -80,10 +88,20 @@ def main():
             "source_commits": hook_commits,
             "add_only": True,
         },
-        "engines": [
+        "engines": [e for e in [
             {"name": "sim", "path": "harness/vsim", "serves_properties": sorted(k for k, v in CLAIMED.items() if v["engine"] == "sim"),
              "kind_free_text": "real kernel + coroutines + router + sender worker + SQLite store under an adversarial, observable AIO with a virtual clock; snapshot monitors after every commit"},
-        ],
+            {"name": "storediff", "path": "harness/vstore", "serves_properties": sorted(k for k, v in CLAIMED.items() if v["engine"] == "storediff"),
+             "kind_free_text": "store backends driven directly (store.Process) against an executable reference model; trigger-based failure injection; Postgres code path on a dialect shim"},
+            {"name": "front", "path": "harness/vfront", "serves_properties": sorted(k for k, v in CLAIMED.items() if v["engine"] == "front"),
+             "kind_free_text": "real HTTP and gRPC front ends over a scripted stub kernel, one child process per batch"},
+            {"name": "route", "path": "harness/vroute", "serves_properties": sorted(k for k, v in CLAIMED.items() if v["engine"] == "route"),
+             "kind_free_text": "real router and sender workers with capture plugins against an independent implementation of the resolution rules"},
+            {"name": "conc", "path": "harness/vconc", "serves_properties": sorted(k for k, v in CLAIMED.items() if v["engine"] == "conc"),
+             "kind_free_text": "production queue path (api, aio, System.Loop, subsystem worker goroutines, poll plugin) under the Go race detector with injected delays at verifhook points"},
+            {"name": "proc", "path": "harness/vproc", "serves_properties": sorted(k for k, v in CLAIMED.items() if v["engine"] == "proc"),
+             "kind_free_text": "the real resonate serve process on a database file, HTTP/gRPC/SSE clients, kill and restart"},
+        ] if e["serves_properties"]],
         "checks": checks,
         "notes": "Technique family: runtime monitoring. Every check runs the real resonate code under generated workloads while monitors observe; verdicts read 'held on K executions'. Genuine defects found are in known_findings.json (open = reported as KNOWN-FINDING, fixed = repaired by a fix: commit in /repo).",
         "not_applicable": na,
